@@ -10,6 +10,20 @@ for m in seeded:
     det = ', '.join(f"./check {p}: {m['last_run'][p]}" for p in m.get('detected_by', [])) if m.get('last_run') else m['caught_by']
     first = 'missed; check strengthened' if m['caught_by'].upper().startswith('MISSED') or 'missed by' in m['caught_by'].lower() else 'caught'
     rows.append(f"| {m['id']} | {m['property']} | {m['needs_to_manifest']} | {det or 'NOT DETECTED'} | {first} |")
+def harmless_table():
+    hs = [json.load(open(f)) for f in sorted(glob.glob(f'{V}/harmless/*/meta.json'))]
+    if not hs:
+        return '(none yet)'
+    r = ['| harmless change | files touched | checks run | outcome |', '|---|---|---|---|']
+    for h in hs:
+        res = h.get('results', {})
+        bad = {p: v for p, v in res.items() if not v.startswith('quiet')}
+        out = 'all quiet' if not bad else '; '.join(f'{p}: {v[:120]}' for p, v in bad.items())
+        if h.get('note'):
+            out += ' — ' + h['note']
+        r.append(f"| {h['id']} | {', '.join(h.get('files', []))} | {', '.join(h.get('checks_run', []))} | {out} |")
+    return '\n'.join(r)
+
 # theorem lists
 thm = []
 for p in sorted(os.listdir(f'{V}/coq')):
@@ -29,6 +43,11 @@ block = ('<!-- BEGIN GENERATED (tools/refresh_design.py) -->\n\n### 9.2 What eac
          '\n### 9.3 Seeded changes: which checks catch which changes (generated)\n\nEach change was written by an independent sub-agent that saw only the property text and a scratch worktree; '
          'kept only after confirming that its demonstration passes on the unmodified tree and fails with the change, and that the existing test suite gives the baseline result. '
          '`tools/run_seeded.sh Cxx seeded/<id>` applies it to a private copy and runs the check; `tools/rerun_seeded.py` re-runs all of them.\n\n' + '\n'.join(rows) +
+         '\n\n### 9.4 Harmless changes: false-alarm testing (generated)\n\nIndependent sub-agents, given only the property text and a scratch worktree, wrote behaviour-preserving '
+         'refactors of the anchored files (private renames, split/merged helpers, restructured loops, equivalent idioms, reworded messages, changed internal '
+         'representations), each with an argument and a differential test against the unmodified tree and the baseline test-suite result. '
+         '`tools/run_harmless.py` applies each to a private copy and runs every check anchored in a touched file; the expected outcome is rc=0 with no VIOLATION '
+         '(an alarm here is a false alarm to be removed from the check, unless the change turns out not to be harmless).\n\n' + harmless_table() +
          '\n\n<!-- END GENERATED -->\n')
 s = open(f'{V}/DESIGN.md').read()
 if '<!-- BEGIN GENERATED' in s:
